@@ -408,6 +408,9 @@ def replay_file(path):
     try:
         if cfg in ("miri", "miri-scalar", "miri-coresimd"):
             res = run_miri(cfg, ["replay", "--file", path])
+        elif cfg == "asan" and rep.get("part") == "asan-run":
+            run_asan(rep["cmd"])
+            res = {"reproduced": False, "same_class": False, "class": None, "observed": "the workload completed under AddressSanitizer without a report"}
         elif cfg == "asan":
             res = run_asan(["replay", "--file", path])
         elif cfg in CONFIGS:
@@ -816,15 +819,35 @@ def check_c18(tier, seed):
         viols.append({"class": "memory-fault:conversions", "config": "miri", "detail": e.what,
                       "replay": {"property": "C18", "part": "conv", "seed": seed, "violation_class": "memory-fault:conversions",
                                  "observed": e.what, "rerun": "check.py C18"}})
-    try:
-        r = run_asan(["c18m", "--seed", seed, "--rounds", 2 if tier == "quick" else 16, "--mem", "heap"])
-        monitors["asan"] = {"cases": r["evaluations"], "violations": r["violations_total"], "asan_reports": 0}
-        evals += r["evaluations"]
-        for v in r["violations"]:
-            v = dict(v); v["config"] = "asan"; viols.append(v)
-    except CrashFound as e:
-        viols.append(crash_violation(e, seed, "Heap"))
-        monitors["asan"] = {"cases": 0, "asan_reports": 1}
+    # AddressSanitizer (release build, as the property prescribes): the memory cases on exact-size heap buffers, and - because
+    # a release-only code path can over-read a stack value without changing any result - every other workload as well: integer
+    # operators, the hostile sweep, composed calls, conversions, access-path histories, padding-lane programs
+    big = tier != "quick"
+    asan_jobs = [
+        ("memory-cases", ["c18m", "--seed", seed, "--rounds", 16 if big else 2, "--mem", "heap"]),
+        ("conversions", ["conv", "--seed", seed, "--rounds", 2000 if big else 100]),
+        ("integer-operators", ["c18i", "--seed", seed, "--samples", 400 if big else 20, "--workers", 1]),
+        ("hostile-sweep", ["c18p", "--seed", seed, "--samples", 200 if big else 8, "--workers", NCPU]),
+        ("composed-calls", ["c18chain", "--seed", seed, "--runs", 4000000 if big else 200000, "--workers", NCPU]),
+        ("access-histories", ["c17", "--seed", seed, "--histories", 2000 if big else 60, "--workers", NCPU]),
+        ("padding-programs", ["c08", "--seed", seed, "--runs", 400000 if big else 20000, "--workers", NCPU, "--no-grid"]),
+    ]
+    monitors["asan"] = {}
+    for label, args in asan_jobs:
+        try:
+            r = run_asan(args)
+            monitors["asan"][label] = {"cases": r["evaluations"], "violations": r["violations_total"], "asan_reports": 0}
+            evals += r["evaluations"]
+            for v in r["violations"]:
+                v = dict(v); v["config"] = "asan"; viols.append(v)
+        except CrashFound as e:
+            monitors["asan"][label] = {"asan_reports": 1, "what": e.what}
+            if e.case and label == "memory-cases":
+                viols.append(crash_violation(e, seed, "Heap"))
+            else:
+                cls = "memory-fault:asan:%s" % label
+                viols.append({"class": cls, "config": "asan", "detail": "%s (workload `%s`; last announced case %s)" % (e.what, " ".join(map(str, args)), json.dumps(e.case)),
+                              "replay": {"property": "C18", "part": "asan-run", "seed": seed, "cmd": [str(a) for a in args], "violation_class": cls, "observed": e.what}})
     rc, known_keys, new_classes = report("C18", viols)
     api = {c: gen_ops(c)[1] for c in cfgs}
     if not results_m:
